@@ -963,10 +963,10 @@ func (it *c02Interp) onCall(call *ast.CallExpr, n ast.Node, s kit.S) []kit.S {
 		rec := strings.Join([]string{"S", side, sg.kind(), pay, it.role(call.Args[sg.id], s), pr, it.f.At(call)}, "|")
 		return []kit.S{c02AddOut(s, rec)}
 	}
-	if t := m.transferOf(it.cur(), call); t != nil && len(call.Args) >= 1 {
-		pay := it.elemOf(call.Args[0], s)
+	if t := m.transferOf(it.cur(), call); t != nil && t.nodeIdx >= 0 && t.nodeIdx < len(call.Args) {
+		pay := it.elemOf(call.Args[t.nodeIdx], s)
 		if pay == "" {
-			pay = "?" + it.f.Str(call.Args[0])
+			pay = "?" + it.f.Str(call.Args[t.nodeIdx])
 		}
 		rec := strings.Join([]string{"T", c02SideAbbr(t.dest), "ch", pay, "-", "-", it.f.At(call)}, "|")
 		return []kit.S{c02AddOut(s, rec)}
@@ -1581,6 +1581,7 @@ func c02Tables(m *c02Model, r2 *kit.Rule) {
 	// region start: the "hashes differ" edge
 	g := c.P.Graph(f)
 	var start *cfg.Block
+	var startCond ast.Node
 	nstart := 0
 	for _, b := range g.G.Blocks {
 		if !b.Live || len(b.Succs) != 2 {
@@ -1644,11 +1645,13 @@ func c02Tables(m *c02Model, r2 *kit.Rule) {
 		if !ok || (be.Op != token.EQL && be.Op != token.NEQ) {
 			continue
 		}
-		isLU := (m.nodeField(be.X, m.L, m.hashF) && m.nodeField(be.Y, m.U, m.hashF)) || (m.nodeField(be.X, m.U, m.hashF) && m.nodeField(be.Y, m.L, m.hashF))
+		hx, hy := m.hashOwner(f, be.X), m.hashOwner(f, be.Y)
+		isLU := hx != nil && hy != nil && ((hx == m.L && hy == m.U) || (hx == m.U && hy == m.L))
 		if !isLU {
 			continue
 		}
 		nstart++
+		startCond = b.Nodes[len(b.Nodes)-1]
 		differsOnTrue := (be.Op == token.NEQ) != neg
 		if differsOnTrue {
 			start = b.Succs[0]
@@ -1658,6 +1661,54 @@ func c02Tables(m *c02Model, r2 *kit.Rule) {
 	}
 	if nstart != 1 || start == nil {
 		c.Fatalf("R2: the comparison of the two copies' hashes is not a branch condition of its own in %s (%d found)", f.Name, nstart)
+	}
+
+	// boolean locals defined once before the region from something the
+	// scenario determines (`isRoot := nodeLocal.ID == up.rootLocal.ID`) enter
+	// the region with that value
+	type preBool struct {
+		o   types.Object
+		rhs ast.Expr
+	}
+	var preBools []preBool
+	{
+		defs := map[types.Object]int{}
+		var cands []preBool
+		var candStmt []ast.Node
+		ast.Inspect(f.Body, func(n ast.Node) bool {
+			switch x := n.(type) {
+			case *ast.FuncLit:
+				return false
+			case *ast.AssignStmt:
+				for i, l := range x.Lhs {
+					o := kit.ObjOf(info, l)
+					if o == nil {
+						continue
+					}
+					defs[o]++
+					if b, ok := o.Type().Underlying().(*types.Basic); ok && b.Info()&types.IsBoolean != 0 && x.Tok == token.DEFINE && len(x.Lhs) == len(x.Rhs) {
+						cands = append(cands, preBool{o, x.Rhs[i]})
+						candStmt = append(candStmt, x)
+					}
+				}
+			case *ast.IncDecStmt:
+				if o := kit.ObjOf(info, x.X); o != nil {
+					defs[o]++
+				}
+			case *ast.UnaryExpr:
+				if x.Op == token.AND {
+					if o := kit.ObjOf(info, x.X); o != nil {
+						defs[o] += 2
+					}
+				}
+			}
+			return true
+		})
+		for i, cd := range cands {
+			if defs[cd.o] == 1 && candStmt[i].End() <= startCond.Pos() && g.NodeDominates(candStmt[i], startCond) {
+				preBools = append(preBools, cd)
+			}
+		}
 	}
 
 	st := &kit.Std{F: f}
@@ -1733,7 +1784,17 @@ func c02Tables(m *c02Model, r2 *kit.Rule) {
 		runs++
 		it.sc = sc
 		it.unknown, it.unknownRelated = nil, false
-		res := g.RunFrom(start, 0, kit.NewS(), client)
+		init := kit.NewS()
+		for _, pb := range preBools {
+			ts, fs := st.Eval.Eval(pb.rhs, kit.NewS())
+			if len(ts) > 0 && len(fs) == 0 {
+				init = init.Set("v:"+kit.VarID(pb.o), "true")
+			} else if len(fs) > 0 && len(ts) == 0 {
+				init = init.Set("v:"+kit.VarID(pb.o), "false")
+			}
+		}
+		it.unknown, it.unknownRelated = nil, false
+		res := g.RunFrom(start, 0, init, client)
 		if res.Overflow {
 			c.Fatalf("R2: state overflow in %s under scenario %s", f.Name, sc.describe())
 		}
